@@ -16,6 +16,31 @@ from harness.core import f2b, b2f, flist, parse_flist
 
 MODEL_MODULES = ['SkyllhModel.Model.Flux', 'SkyllhModel.Generated.C13']
 
+import collections as _coll
+BR = _coll.Counter()        # hits per branch of the modelled functions (classified on the harness side)
+# every branch of the model that the correspondence is expected to reach
+BRANCHES = [
+    'conv:none', 'conv:some', 'unitFactor:none', 'unitFactor:equal', 'unitFactor:convert',
+    'plIntegral:gamma==1', 'plIntegral:else',
+    'boxCall:inside', 'boxCall:outside', 'boxIntegral:overlap', 'boxIntegral:no-overlap',
+    'boxIntegral:t1-clipped', 'boxIntegral:t1-inside', 'boxIntegral:t2-clipped', 'boxIntegral:t2-inside',
+    'boxCdf:before', 'boxCdf:inside', 'boxCdf:after',
+    'gaussCall:inside', 'gaussCall:outside', 'clip:below', 'clip:inside', 'clip:above',
+    'gaussCdf:before', 'gaussCdf:inside', 'gaussCdf:after', 'gaussNewChecked:some', 'gaussNewChecked:none',
+    'setOne:no-such-attr', 'setOne:changed', 'setOne:unchanged', 'setOne:not-in-dict',
+    'setOneV:after-error', 'setOneV:num', 'setOneV:arr', 'setOneV:bad', 'setParamsV:model-stops-delegation',
+    'move:unityT', 'move:box', 'move:gauss', 'move:no-such-method', 'moveU:none', 'moveU:some',
+    'copy:ffm', 'copy:profile', 'copySet:ffm', 'copySet:profile',
+    'getParam:own', 'getParam:profile', 'getParam:none',
+    'call:none-ang', 'call:none-E', 'call:none-t', 'call:all-given', 'evalS:unityS', 'evalS:point-hit', 'evalS:point-miss',
+    'evalE:unityE', 'evalE:pl', 'evalE:cutoff', 'evalE:logpar', 'evalE:func', 'evalT:unityT', 'evalT:box', 'evalT:gauss',
+]
+# branches of the model that cannot be addressed through the Python interface (listed, not counted)
+BRANCHES_EXCLUDED = {
+    'Heap.copy:none / Heap.call:none / targets:none': 'a Python call always has a live receiver object; dangling heap indices do not exist',
+    'Heap.setParams: acc.1[j]? = none': 'a model always refers to existing profile objects',
+}
+
 FM = 'skyllh/core/flux_model.py'
 _RECORDED_NAMES = {
     'point': ('PointSpatialFluxProfile', ['ra', 'dec']),
@@ -106,9 +131,9 @@ def build(spec):
     import skyllh.core.flux_model as fm
     k, p, u = spec['kind'], spec.get('p', {}), spec.get('unit')
     if k == 'unityS':
-        return fm.UnitySpatialFluxProfile(cfg=cfg())
+        return fm.UnitySpatialFluxProfile(angle_unit=unit(u), cfg=cfg())
     if k == 'point':
-        return fm.PointSpatialFluxProfile(ra=p['ra'], dec=p['dec'], cfg=cfg())
+        return fm.PointSpatialFluxProfile(ra=p['ra'], dec=p['dec'], angle_unit=unit(u), cfg=cfg())
     if k == 'unityE':
         return fm.UnityEnergyFluxProfile(energy_unit=unit(u), cfg=cfg())
     if k == 'pl':
@@ -137,7 +162,7 @@ def build(spec):
         return fm.FactorizedFluxModel(Phi0=p['Phi0'], spatial_profile=None, energy_profile=None, time_profile=None, cfg=cfg())
     if k == 'ffm':
         return fm.FactorizedFluxModel(Phi0=p['Phi0'], spatial_profile=build(spec['s']), energy_profile=build(spec['e']),
-                                      time_profile=build(spec['t']), cfg=cfg())
+                                      time_profile=build(spec['t']), length_unit=unit(spec.get('length_unit')), cfg=cfg())
     raise ValueError(k)
 
 
@@ -582,6 +607,46 @@ def o_names(ctx, case):
     return None
 
 
+# units as scales relative to the internal units (the model's representation: u.to(v) = s_u / s_v)
+SCALE = {'GeV': 1.0, 'TeV': 1e3, 'PeV': 1e6, 's': 1.0, 'day': 86400.0, 'yr': 31557600.0, 'rad': 1.0, 'deg': math.pi / 180,
+         'cm': 1.0, 'm': 100.0, 'km': 1e5}
+UNIT_GROUPS = (E_UNITS_ := ['GeV', 'TeV', 'PeV'], T_UNITS_ := ['s', 'day', 'yr'], ['rad', 'deg'], ['cm', 'm', 'km'])
+
+
+def unit_model_cmp(ctx):
+    """ties `unitFactor` (incl. the `unit == own unit` branch) and `toInternalFlux` to astropy / the code"""
+    import skyllh.core.flux_model as fm
+    lines, wants, descs = [], [], []
+    for grp in UNIT_GROUPS:
+        for own in grp:
+            for arg in [None] + grp:
+                lines.append('ufactor %s %s' % (f2b(SCALE[own]), '-' if arg is None else f2b(SCALE[arg])))
+                wants.append(ufac(arg, own))
+                descs.append('unit factor for an argument in %s of a profile in %s' % (arg, own))
+                BR['unitFactor:' + ('none' if arg is None else ('equal' if arg == own else 'convert'))] += 1
+    rng = ctx.rng
+    models = []
+    for _ in range(ctx.n(12, 100)):
+        ua, ue, ul, ut = (rng.choice(g) for g in (['rad', 'deg'], UNIT_GROUPS[0], ['cm', 'm', 'km'], UNIT_GROUPS[1]))
+        m = fm.FactorizedFluxModel(Phi0=1.0, spatial_profile=fm.UnitySpatialFluxProfile(angle_unit=unit(ua), cfg=cfg()),
+                                   energy_profile=fm.UnityEnergyFluxProfile(energy_unit=unit(ue), cfg=cfg()),
+                                   time_profile=fm.UnityTimeFluxProfile(time_unit=unit(ut), cfg=cfg()), length_unit=unit(ul), cfg=cfg())
+        iu = cfg()['units']['internal']
+        ia, ie, il, it = (SCALE[iu[k_].to_string()] for k_ in ('angle', 'energy', 'length', 'time'))
+        lines.append('tointernal %s' % ' '.join(f2b(x) for x in (SCALE[ua], SCALE[ue], SCALE[ul], SCALE[ut], ia, ie, il, it)))
+        wants.append(_impl(lambda: float(m.to_internal_flux_unit())))
+        descs.append('to_internal_flux_unit of a model in (%s, %s, %s, %s)' % (ua, ue, ul, ut))
+        ctx.count('internal-unit:%s,%s' % (ua, ul))
+    res = []
+    for ln, w, d, o in zip(lines, wants, descs, ctx.driver('C13', lines)):
+        ctx.case(nontrivial=True, key=ln)
+        mv = None if o == '-' else b2f(o)
+        ok = (w is None and mv is None) or (w is not None and mv is not None and not isinstance(w, str) and abs(w - mv) <= 1e-13 * abs(w))
+        if not ok:
+            res.append('%s: implementation %r, model %r' % (d, w, mv))
+    return res
+
+
 def o_internal_unit(ctx, case):
     from skyllh.core.flux_model import FactorizedFluxModel
     spec = case['spec']
@@ -962,6 +1027,37 @@ def o_purity(ctx, case):
         r = _pure_call(obj, method, ro, u, desc + ' with read-only arrays')
         if not _same(r, ref, rt):
             raise _Tag('readonly-wrong-result', '%s with read-only arrays = %r, writable %r' % (desc, np.asarray(r).tolist(), np.asarray(ref).tolist()))
+        # (2b') Python lists / tuples, non-contiguous (strided) arrays, 0-length arrays
+        # (unity / gaussian time get_integral are documented for floats / arrays only: plain arithmetic on the
+        # arguments, no atleast_1d — lists are not part of their interface)
+        if not (kind in ('unityT', 'gauss') and method in ('int', 'cdf')):
+            for nm, mk in (('lists', list), ('tuples', tuple)):
+                r = _pure_call(obj, method, tuple(mk(c) for c in cols), u, desc + ' with Python %s' % nm)
+                if not _same(r, ref, rt):
+                    raise _Tag('list-wrong-result', '%s with Python %s = %r, arrays %r' % (desc, nm, np.asarray(r).tolist(), np.asarray(ref).tolist()))
+        strided = []
+        for c in cols:
+            buf = np.full(2 * len(c) + 1, -7.25)
+            buf[::2][:len(c)] = c
+            strided.append(buf[0:2 * len(c):2])
+        r = _pure_call(obj, method, tuple(strided), u, desc + ' with non-contiguous arrays')
+        if not _same(r, ref, rt):
+            raise _Tag('strided-wrong-result', '%s with non-contiguous arrays = %r, contiguous %r' % (desc, np.asarray(r).tolist(), np.asarray(ref).tolist()))
+        r = _pure_call(obj, method, tuple(np.array([], dtype=np.float64) for _c in cols), u, desc + ' with 0-length arrays')
+        if np.asarray(r).size != 0:
+            raise _Tag('empty-wrong-result', '%s with 0-length arrays returns %r' % (desc, np.asarray(r).tolist()))
+        # (2b'') the returned array is the caller's: no alias of an argument, no live view of internal state
+        a2 = fresh()
+        r = _pure_call(obj, method, a2, u, desc)
+        if isinstance(r, np.ndarray):
+            if any(np.shares_memory(r, x) for x in a2):
+                raise _Tag('result-aliases-argument', '%s returns an array that shares memory with an argument' % desc)
+            keep = np.array(r, copy=True)
+            if r.flags.writeable and r.size:
+                r[...] = 123 if r.dtype.kind in 'iu' else 12345.678
+                r3 = _pure_call(obj, method, a2, u, desc)
+                if not _same(r3, keep, rt):
+                    raise _Tag('result-live-view', '%s: writing into the returned array changed the next result (%r -> %r)' % (desc, keep.tolist(), np.asarray(r3).tolist()))
         # (2c) 0-d arrays and Python scalars, element by element
         for i in range(n):
             z = tuple(np.array(c[i], dtype=np.float64) for c in cols)
@@ -1187,6 +1283,38 @@ def cmp_time(case, impl, model, scale):
     return '%s: implementation %r, model %r' % (case['op'], impl, m)
 
 
+def _count_time_branches(c, p):
+    f = ufac(c.get('arg_unit'), c['spec'].get('unit'))
+    BR['conv:' + ('none' if f is None else 'some')] += 1
+    cv = (lambda x: x) if f is None else (lambda x: x * f)
+    s_, e_ = float(p.t_start), float(p.t_stop)
+    k, op = c['spec']['kind'], c['op']
+    reg = lambda x: 'below' if x < s_ else ('above' if x > e_ else 'inside')  # noqa
+    if k == 'box':
+        if op == 'call':
+            BR['boxCall:' + ('inside' if s_ <= cv(c['x']) <= e_ else 'outside')] += 1
+        elif op == 'int':
+            a, b = cv(c['x1']), cv(c['x2'])
+            if s_ <= b and a <= e_:
+                BR['boxIntegral:overlap'] += 1
+                BR['boxIntegral:t1-' + ('clipped' if a < s_ else 'inside')] += 1
+                BR['boxIntegral:t2-' + ('clipped' if b > e_ else 'inside')] += 1
+            else:
+                BR['boxIntegral:no-overlap'] += 1
+        else:
+            x = cv(c['x'])
+            BR['boxCdf:' + ('inside' if s_ <= x <= e_ else ('after' if x > e_ else 'before'))] += 1
+    elif k == 'gauss':
+        if op == 'call':
+            BR['gaussCall:' + ('inside' if s_ <= cv(c['x']) < e_ else 'outside')] += 1
+        elif op == 'int':
+            BR['clip:' + reg(cv(c['x1']))] += 1
+            BR['clip:' + reg(cv(c['x2']))] += 1
+        else:
+            x = cv(c['x'])
+            BR['gaussCdf:' + ('inside' if s_ <= x <= e_ else ('after' if x > e_ else 'before'))] += 1
+
+
 def run_time_cases(ctx, cases):
     """-> list of (case, impl, model, diff-or-None)"""
     from scipy.special import erf
@@ -1207,6 +1335,7 @@ def run_time_cases(ctx, cases):
     for i, o in zip(live, outs):
         c, p = cases[i], profs[i]
         impl = impl_time(c, p)
+        _count_time_branches(c, p)
         if c['op'] == 'cdf':
             scale = 1.0
         elif c['spec']['kind'] == 'gauss':
@@ -1279,6 +1408,7 @@ def history_lines(hist):
             names = _ctor_names(o) + ['bogus']
             for n in names:
                 lines.append('get %d %s' % (j, n))
+                BR['getParam:' + ('none' if n == 'bogus' else ('own' if (k != 'ffm' or n == 'Phi0') else 'profile'))] += 1
                 try:
                     v = float(o.get_param(n))
                     impl.append(('VAL', v))
@@ -1432,6 +1562,9 @@ def o_corr(ctx, case):
         return cmp_history(lines, impl, strict, ctx.driver('C13', lines), objs)
     if t == 'outer':
         return _outer_cmp(ctx, [case])[0][1]
+    if t == 'units':
+        r = unit_model_cmp(ctx)
+        return r[0] if r else None
     if t == 'gnew':
         g_ = case['spec']
         o = ctx.driver('C13', ['gnew %s %s %s' % (f2b(g_['p']['t0']), f2b(g_['p']['sigma_t']), f2b(1e-12 if g_['p']['tol'] is None else g_['p']['tol']))])[0]
@@ -1476,6 +1609,8 @@ def _cell_line(spec):
         xs = [p['t0'], p['sigma_t'], 1e-12 if p.get('tol') is None else p['tol']]
     elif k in ('unityT', 'unityS', 'unityE'):
         xs = []
+    elif k == 'function':
+        xs = [p['g'], p['Ec']]
     else:
         xs = [p[n] for n in CTOR_PARAMS[k]]
     return 'new %s %s' % (k, flist(xs))
@@ -1486,8 +1621,6 @@ def _model_call_cmp(ctx, cases):
     lines, metas = [], []
     for c in cases:
         spec = c['spec']
-        if spec['e']['kind'] == 'function':
-            continue
         try:
             m = build(spec)
         except Exception:  # noqa  (reported by the model_call oracle)
@@ -1497,7 +1630,16 @@ def _model_call_cmp(ctx, cases):
         lines += ['reset', _cell_line(spec['s']), _cell_line(spec['e']), _cell_line(spec['t']), 'newffm %s 0,1,2' % f2b(spec['p']['Phi0'])]
         metas += [None] * 5
         kw = dict(angle_unit=unit(c.get('angle_unit')), energy_unit=unit(c.get('energy_unit')), time_unit=unit(c.get('time_unit')))
+        BR['evalS:' + ('unityS' if spec['s']['kind'] == 'unityS' else 'point-hit')] += 1
+        if spec['s']['kind'] == 'point':
+            BR['evalS:point-miss'] += 1         # the argument lists contain the position and another point
+        BR['evalE:' + {'function': 'func'}.get(spec['e']['kind'], spec['e']['kind'])] += 1
+        BR['evalT:' + spec['t']['kind']] += 1
         for none in c.get('nones', [[]]):
+            for g_ in none:
+                BR['call:none-' + g_] += 1
+            if not none:
+                BR['call:all-given'] += 1
             a = {k_: np.array(c[k_], dtype=np.float64) for k_ in ('ra', 'dec', 'E', 't')}
             tok = lambda k_, grp: 'N' if grp in none else flist(a[k_])  # noqa
             lines.append('call 3 %s %s %s %s %s %s %s' % (tok('ra', 'ang'), tok('dec', 'ang'), tok('E', 'E'), tok('t', 't'), _ut(fa), _ut(fe), _ut(ft)))
@@ -1884,7 +2026,7 @@ def run(ctx):
 
     # ---- factorized flux models: product form, names, internal unit
     for _ in range(ctx.n(25, 400)):
-        es, _ = gen_energy_spec(rng, kind=rng.choice(['pl', 'cutoff', 'logpar', 'unityE']))
+        es, _ = gen_energy_spec(rng, kind=rng.choice(['pl', 'pl', 'cutoff', 'cutoff', 'logpar', 'logpar', 'unityE', 'function']))
         ts = gen_time_spec(rng)
         ss = rng.choice([{'kind': 'unityS'}, {'kind': 'point', 'p': {'ra': 1.25, 'dec': 0.5}}])
         spec = {'kind': 'ffm', 'p': {'Phi0': float(lg(rng, -14, 1))}, 's': ss, 'e': es, 't': ts}
@@ -1895,7 +2037,7 @@ def run(ctx):
         outer_cases.append(c)
         oracle_cases.append(('product', {k: c[k] for k in ('spec', 'ra', 'dec', 'E', 't')}))
         oracle_cases.append(('names', {'spec': spec}))
-        oracle_cases.append(('internal_unit', {'spec': spec}))
+        oracle_cases.append(('internal_unit', {'spec': dict(spec, s=dict(ss, unit=rng.choice([None, 'rad', 'deg'])), length_unit=rng.choice([None, 'cm', 'm', 'km']))}))
         ctx.count('ffm:%s,%s' % (es['kind'], ts['kind']))
         # the call itself: unit keyword arguments, None arguments, scalars; also for the point-like classes
         cls = rng.choice(['ffm', 'ffm', 'pffm', 'spffm'])
@@ -2019,6 +2161,9 @@ def run(ctx):
     for c, i, m in zip(numeric, impls, ctx.driver('C13', reqs)):
         ctx.case(nontrivial=True, key=c, desc=c if ctx.evaluations % 503 == 0 else None)
         ctx.count('corr:energy-' + c['op'])
+        BR['conv:' + ('none' if ufac(c.get('arg_unit'), c['spec'].get('unit')) is None else 'some')] += 1
+        if c['op'] == 'int' and c['spec']['kind'] == 'pl':
+            BR['plIntegral:' + ('gamma==1' if c['spec']['p']['gamma'] == 1 else 'else')] += 1
         d = cmp_numeric(c, i, m)
         if d:
             suspicious.append((c, i, m, d))
@@ -2032,6 +2177,8 @@ def run(ctx):
         ctx.count('corr:outer')
         if d:
             suspicious.append((c, None, None, d))
+    for d in unit_model_cmp(ctx):
+        suspicious.append(({'type': 'units', 'spec': {'kind': 'units'}}, None, None, d))
     for c, d in _model_call_cmp(ctx, model_calls):
         ctx.case(nontrivial=True, key=(c['spec'], c['E'], c['t'], c.get('energy_unit'), c.get('time_unit')))
         ctx.count('corr:model-call')
@@ -2053,11 +2200,13 @@ def run(ctx):
                 tot = float(pr.get_total_integral())
         if o == 'none':
             ctx.count('gauss-ctor:outside-domain')
+            BR['gaussNewChecked:none'] += 1
             if np.isfinite(tot) and tot > 0 and w[0] < w[1]:
                 suspicious.append((dict(type='gnew', spec=g_), w, o, 'gaussian constructor outside 0 < tol < 1, sigma != 0: implementation builds a '
                                    'regular profile (window %r, total %r), model: none' % (w, tot)))
         else:
             ctx.count('gauss-ctor:domain')
+            BR['gaussNewChecked:some'] += 1
             mv = parse_flist(o)
             if not _close(w, mv[:2], group=True):
                 suspicious.append((dict(type='gnew', spec=g_), w, mv[:2], 'gaussian constructor: implementation window %r, model %r' % (w, mv[:2])))
@@ -2098,6 +2247,16 @@ def run(ctx):
     for k_, v_ in SKIPPED.items():
         ctx.count(k_, v_)
     SKIPPED.clear()
+    for b_ in BRANCHES:
+        ctx.count('branch:' + b_, BR.get(b_, 0))
+    unknown = sorted(set(BR) - set(BRANCHES))
+    ctx.extra['zero_hit_branches'] = [b_ for b_ in BRANCHES if BR.get(b_, 0) == 0]
+    ctx.extra['branches_not_addressable'] = BRANCHES_EXCLUDED
+    if unknown:
+        ctx.note('C13: branch labels counted but not declared: %r' % unknown)
+    if ctx.extra['zero_hit_branches']:
+        ctx.note('C13: model branches not reached by the correspondence in this run: %r' % ctx.extra['zero_hit_branches'])
+    BR.clear()
 
 
 def _interval_class(spec, a, b):
